@@ -1199,3 +1199,7 @@ mod tests {
         assert_eq!(mock.events.pop_front(), None);
     }
 }
+
+#[cfg(kani)]
+#[path = "/verif/harness/event_buffer.rs"]
+mod verif_harness;
